@@ -154,3 +154,26 @@ Theorem C17_open_order_facts :
   gen_unregistered_connection_still_notifies_disconnect = true.
 Proof. repeat split; reflexivity. Qed.
 Print Assumptions C17_open_order_facts.
+
+(** Addressing, regenerated from the source: OPEN replies of the exit / forward /
+    UDP / ICMP endpoints name (peer, stream id, request id) in that order;
+    every relayed DATA / CLOSE / RESET (and the UDP / ICMP equivalents) is
+    forwarded to (DownstreamPeer, DownstreamID) when it came from upstream and
+    to (UpstreamPeer, UpstreamID) when it came from downstream ([on_frame]);
+    a refused UDP_OPEN at the ingress removes its own mesh stream only. *)
+Theorem C17_addressing_facts :
+  gen_exit_open_replies_pass_stream_then_request_id = true /\
+  gen_forward_open_replies_pass_stream_then_request_id = true /\
+  gen_udp_open_err_addressed_by_stream_and_request = true /\
+  gen_icmp_open_err_addressed_by_stream_and_request = true /\
+  gen_agent_open_err_writer_maps_ids = true /\
+  gen_forward_ids_handleStreamData = true /\
+  gen_forward_ids_handleStreamClose = true /\
+  gen_forward_ids_handleStreamReset = true /\
+  gen_forward_ids_handleUDPDatagram = true /\
+  gen_forward_ids_handleUDPClose = true /\
+  gen_forward_ids_handleICMPEcho = true /\
+  gen_forward_ids_handleICMPClose = true /\
+  gen_udp_open_err_removes_own_mesh_stream = true.
+Proof. repeat split; reflexivity. Qed.
+Print Assumptions C17_addressing_facts.
